@@ -48,6 +48,7 @@ def gen_case(rng, tier):
     c["t"] = list(c["dists"])[0]
     c["boundary"] = rng.choice([None, None, "midext0", "midext1", "mixing0", "mixing1"])
     c["n_updates"] = rng.choice([0, 1, 2])
+    c["preload"] = gen_mpatients(rng, mods, lnls, 1, 4) if rng.random() < 0.4 else None   # an earlier cohort (replaced)
     return c
 
 
@@ -105,6 +106,12 @@ _models = {}
 def impl_fn(case):
     m = build(case)
     _models[json.dumps(case, sort_keys=True)] = m
+    if case.get("preload"):
+        m.load_patient_data(table(case, case["preload"]))
+        try:
+            m.likelihood()
+        except Exception:  # noqa: BLE001
+            pass
     m.load_patient_data(table(case))
     out = {}
     def call(key, fn):
@@ -193,6 +200,10 @@ def candidates(case):
     if case.get("n_updates", 0) > 0:
         c = copy.deepcopy(case)
         c["n_updates"] -= 1
+        out.append(c)
+    if case.get("preload"):
+        c = copy.deepcopy(case)
+        c["preload"] = c["preload"][:-1] or None
         out.append(c)
     return out
 
